@@ -233,6 +233,13 @@ static int pick_heap_idx(void) {  /* a live heap of this thread */
 
 static void op_alloc_ex(int op, size_t n, size_t al, size_t off, int hidx, int fillmode) {
   int s = pick_free_slot(); if (s < 0) return;
+  { /* the throwing `new` entry points abort on exhaustion: not with heaps bound to a (possibly full) arena */
+    int eff = ((aops[op].fl & F_HEAP) ? hidx : dflt_idx);
+    if (eff >= 0 && hps[eff].arena != 0) {
+      if (op == A_new || op == A_new_n) op = A_malloc; else if (op == A_new_aligned) op = A_malloc_aligned;
+      else if (op == A_heap_alloc_new || op == A_heap_alloc_new_n) op = A_heap_malloc;
+    }
+  }
   int fl = aops[op].fl;
   size_t cnt = 0, sz = 0;
   if (fl & F_SMALL) { if (n > 1024) n = (size_t)vf_randn(1025); }
@@ -314,6 +321,7 @@ static void op_free(void) { int s = pick_live(); if (s < 0) return; op_free_slot
 
 /* ------------------------------------------------------------------ realloc family */
 static void op_realloc_ex(int op, int s /* slot or -1 for NULL input */, size_t n, int hidx, int fillmode) {
+  if ((op == R_new_realloc || op == R_new_reallocn) && hps[dflt_idx].arena != 0) op = R_realloc;   /* (aborts on exhaustion) */
   int fl = rops[op].fl;
   size_t cnt = 0, sz = 0, al = 0, off = 0;
   if (fl & F_CNT) { sz = cnt_sizes[vf_randn(sizeof(cnt_sizes) / sizeof(size_t))]; cnt = n / sz; n = cnt * sz; }
@@ -635,12 +643,51 @@ static void heap_set_default_op(int i) {
   r.h = heap_id_of(oldh); dflt_idx = i;
   log_ret_begin("heap_set_default", &r); log_obs(-1, -1, 0); log_ret_end();
 }
+/* C15: managed arenas (regions handed to mi_manage_os_memory_ex at odd addresses / sizes) and heaps bound to them */
+static int arena_setup(size_t size, size_t skew, int exclusive) {
+  if (nars >= MAXARENAS) return -1;
+  size_t total = size + (64u << 20);
+  uint8_t* raw = (uint8_t*)syscall(SYS_mmap, NULL, total, PROT_READ | PROT_WRITE, MAP_PRIVATE | MAP_ANONYMOUS | MAP_NORESERVE, -1, 0);
+  if ((long)raw < 0 && (long)raw > -4096) return -1;
+#if defined(VF_SHIM)
+  vf_os_event("mmap", raw, total, "RW", 1, 0);   /* the region is mapped by the harness: tell the OS model */
+#endif
+  uint8_t* start = raw + skew;                 /* deliberately not segment aligned */
+  size_t given = size + (skew % 4096 == 0 ? 12288 : 0) + 4096 * (skew % 7);
+  mi_arena_id_t aid = 0;
+  vf_in_call = 1;
+  bool ok = mi_manage_os_memory_ex(start, given, true /* committed */, false, true /* zero */, -1, exclusive != 0, &aid);
+  vf_in_call = 0;
+  if (!ok) return -1;
+  size_t asz = 0; void* ast = mi_arena_area(aid, &asz);
+  ar_t* ar = &ars[nars++]; ar->aid = aid; ar->id = nars; ar->start = ast; ar->size = asz; ar->excl = exclusive;
+  vf_logf("{\"e\":\"arena\",\"id\":%d,\"a\":[%ld,%ld],\"len\":[%ld,%ld],\"ga\":[%ld,%ld],\"glen\":[%ld,%ld],\"excl\":%s}", ar->id,
+          VF_HI(ast), VF_LO(ast), VF_HI(asz), VF_LO(asz), VF_HI(start), VF_LO(start), VF_HI(given), VF_LO(given), exclusive ? "true" : "false");
+  vf_log_line_end();
+  return nars - 1;
+}
+static int heap_new_in_arena_op(int aridx) {
+  ret_t r; memset(&r, 0, sizeof(r));
+  int i; for (i = 0; i < MAXHEAPS; i++) if (!hps[i].alive) break;
+  if (i >= MAXHEAPS || aridx < 0) return -1;
+  log_call_begin("heap_new_in_arena", 0, 0, 0, 0, 0, 0, "ok", ars[aridx].id, 0); log_obs(-1, -1, 0); log_call_end();
+  mi_heap_t* h = mi_heap_new_in_arena(ars[aridx].aid);
+  vf_in_call = 0;
+  r.null = (h == NULL);
+  if (h) { hps[i].hp = h; hps[i].id = next_heap_id++; hps[i].alive = 1; hps[i].arena = ars[aridx].id; hps[i].descid = next_id++;
+           r.h = hps[i].id; r.id = hps[i].descid; r.a = h; r.us = mi_usable_size(h); }
+  log_ret_begin("heap_new_in_arena", &r); log_obs(-1, -1, 1); log_ret_end();
+  return h ? i : -1;
+}
 static void op_heap(void) {
   ret_t r; memset(&r, 0, sizeof(r));
   int k = (int)vf_randn(10);
   int nalive = 0; for (int i = 0; i < MAXHEAPS; i++) nalive += hps[i].alive;
   if (k < 3 && nalive < MAXHEAPS) { heap_new_op(); return; }
   int i = pick_heap_idx();
+  /* heaps from mi_heap_new_in_arena allow reclaim and must not be destroyed; deleting them would hand their pages (inside the
+     arena) to the unbound backing heap, which ends the privacy of an exclusive arena: they are kept until the end */
+  if (k < 7 && i != 0 && hps[i].arena != 0) return;
   if (k < 5 && i != 0) heap_delete_op(i);
   else if (k < 7 && i != 0) heap_destroy_op(i);
   else if (k < 8) heap_set_default_op(i);
